@@ -99,6 +99,30 @@ def judge_stream(ctx, data, kind):
               'paths-differ', case,
               lambda: {'parse_all': [m.hex() for m in outs[0]][:8],
                        'bytewise': [m.hex() for m in out3][:8]})
+    # the same stream in two chunks of several container types, with the first chunk's
+    # messages taken by a for-loop that is abandoned after its first message
+    n = len(data)
+    cuts = range(0, n + 1) if n <= 4 else (n // 2, (n * 2) // 3)
+    for cut in cuts:
+        for cont in (bytes, list):
+            try:
+                p = Parser()
+                p.feed(cont(data[:cut]))
+                got = []
+                for m in p:
+                    got.append(m)
+                    break                      # abandon the loop
+                p.feed(cont(data[cut:]))
+                got.extend(p)
+                got.extend(p)
+            except Exception as exc:
+                ctx.check('no exception', False, f'chunked:{type(exc).__name__}', case,
+                          f'cut {cut} {cont.__name__}: {type(exc).__name__}: {exc}')
+                return None
+            ctx.check('same result in two chunks with an abandoned loop', got == out3,
+                      f'chunked-differs:{cont.__name__}', case,
+                      lambda: {'cut': cut, 'container': cont.__name__, 'got': [m.hex() for m in got][:8],
+                               'want': [m.hex() for m in out3][:8]})
     # fresh objects
     ids = {id(m) for m in outs[0]}
     ctx.check('messages are distinct objects', len(ids) == len(outs[0]), 'aliased', case, None)
